@@ -13,7 +13,7 @@ import itertools
 from vf import report
 from vf.explore import digest, parallel
 from vf.models import codec
-from vf.vworld import peer
+from vf.vworld import base, peer
 
 PKTS = ['0', '1', '2', '3', '4text', '4{"k":[1,"x"]}', 'bAAEC', '5', '6', '7', '8', '9x', 'x', '']
 FRAMES = PKTS + [b'\x00\x01\x02', 'b!', '4', b'']
@@ -120,6 +120,16 @@ def poll_loop(w, sid, until, pings, noops, g=None):
     return g
 
 
+def _beh(case):
+    """Application behaviour of a case: by default handlers just record; 'mh' makes every message handler raise."""
+    mh = case.get('mh')
+    if mh == 'raise':
+        return {'behaviour': base.Scripted(message=[('raise', 'message handler failure')])}
+    if mh == 'raise_type':
+        return {'behaviour': base.Scripted(message=[('raise_type',)])}
+    return {}
+
+
 class _SleepyDisconnect:
     def connect(self, sid, environ):
         return []
@@ -167,7 +177,7 @@ def run_post_case(impl, case, out):
     if case.get('session') == 'closing':
         return run_closing_case(impl, case, out)
     pkts, mode, with_poll = case['pkts'], case['async_handlers'], case['poll']
-    w = peer.make_world(impl, server_kwargs=dict(ping_interval=INTERVAL, ping_timeout=1, async_handlers=mode))
+    w = peer.make_world(impl, server_kwargs=dict(ping_interval=INTERVAL, ping_timeout=1, async_handlers=mode), **_beh(case))
     try:
         sid = peer.sid_of(peer.open_polling(w))
         pending = peer.poll(w, sid) if with_poll else None
@@ -256,7 +266,7 @@ def run_post_case(impl, case, out):
 
 def run_ws_case(impl, case, out):
     frames, mode, kind = case['pkts'], case['async_handlers'], case['session']
-    w = peer.make_world(impl, server_kwargs=dict(ping_interval=INTERVAL, ping_timeout=1, async_handlers=mode))
+    w = peer.make_world(impl, server_kwargs=dict(ping_interval=INTERVAL, ping_timeout=1, async_handlers=mode), **_beh(case))
     try:
         if kind == 'ws_only':
             s = peer.ws_open(w)
@@ -385,6 +395,13 @@ def run(ctx):
             for f in fseqs:
                 for sk in ('ws_only', 'upgraded'):
                     jobs.append(('ws', impl, {'pkts': f, 'async_handlers': mode, 'session': sk}))
+            # every message handler call raises (an ordinary exception / a TypeError): each packet is still acted on once, in order
+            for mh in ('raise', 'raise_type'):
+                for b in (['4text'], ['4text', '4text'], ['4text', '4{"k":[1,"x"]}', 'bAAEC'], ['4text', '3', '4text'], ['4text', '5', '4text'],
+                          ['4text', '1'], ['4text', '4text', '7']):
+                    jobs.append(('post', impl, {'pkts': b, 'async_handlers': mode, 'poll': True, 'mh': mh}))
+                    jobs.append(('ws', impl, {'pkts': b, 'async_handlers': mode, 'session': 'ws_only', 'mh': mh}))
+                    jobs.append(('ws', impl, {'pkts': b, 'async_handlers': mode, 'session': 'upgraded', 'mh': mh}))
         jobs.append(('dead', impl, None))
     res = parallel.pmap_chunks(_work, parallel.split(jobs, ctx.workers * 6), ctx.workers, ctx.seed, maxtasks=6)
     n = 0
@@ -406,7 +423,7 @@ def run(ctx):
         'rule': 'every POST body of <= %d packets over %r (plus the complete depth-3 slice with a seed-chosen first packet at the '
                 'quick tier, and 16/17/18-packet bodies) and every sequence of <= %d frames over the same alphabet plus raw '
                 'binary, empty, invalid base64 and bare "4"; sessions: polling (pending poll%s), polling in the middle of an upgrade handshake, polling in the middle of its own close (disconnect handler asleep), WebSocket-only, upgraded; '
-                'async_handlers in {False, True}; Server and AsyncServer. states = distinct canonical digests of the final world '
+                'async_handlers in {False, True}; a few bodies / frame sequences again with message handlers that raise (an ordinary exception, a TypeError); Server and AsyncServer. states = distinct canonical digests of the final world '
                 'state over all histories; transitions = scheduler steps executed on the real servers; traces = histories.'
                 % (depth, PKTS, depth, '' if ctx.quick else ' on/off'),
         'exhaustive': True, 'bound_completed': depth, 'violating_cases_total': nv,
